@@ -29,6 +29,23 @@ struct KeyLess {
 struct AbsSum {
   int operator()(int a, int b) const { return abs(a) + abs(b); }
 };
+// Composition of affine maps x -> m*x + c modulo a prime: associative, NOT
+// commutative (identity {1, 0}). A scan that joins partial results in the
+// wrong order gives a different answer.
+struct Aff {
+  uint32_t m, c;
+  bool operator==(const Aff& o) const { return m == o.m && c == o.c; }
+};
+struct Compose {
+  Aff operator()(const Aff& a, const Aff& b) const {
+    const uint64_t P = 65521;
+    return {(uint32_t)((uint64_t)a.m * b.m % P), (uint32_t)(((uint64_t)a.c * b.m + b.c) % P)};
+  }
+};
+// "last non-zero" : associative, not commutative, identity 0.
+struct LastNonZero {
+  int operator()(int a, int b) const { return b != 0 ? b : a; }
+};
 
 template <class V>
 std::string first_diff(const V& a, const V& b) {
@@ -186,6 +203,21 @@ std::string run_case(const std::string& c, size_t n, uint64_t dseed, int dist) {
     std::vector<int> a(n), b(n);
     manifold::exclusive_scan(Par, in.begin(), in.end(), a.begin(), 4, AbsSum());
     std::exclusive_scan(in.begin(), in.end(), b.begin(), 4, AbsSum());
+    return first_diff(a, b);
+  }
+  if (c == "exclusive_scan_affine") {
+    std::vector<Aff> v(n), a(n), b(n);
+    for (auto& x : v) x = {1 + (uint32_t)(r.next() % 1000), (uint32_t)(r.next() % 1000)};
+    const Aff init{7, 3}, id{1, 0};
+    manifold::exclusive_scan(Par, v.begin(), v.end(), a.begin(), init, Compose(), id);
+    std::exclusive_scan(v.begin(), v.end(), b.begin(), init, Compose());
+    return first_diff(a, b);
+  }
+  if (c == "exclusive_scan_lastnonzero") {
+    std::vector<int> v(n), a(n), b(n);
+    for (auto& x : v) x = (r.next() % 3 == 0) ? 1 + (int)(r.next() % 100000) : 0;
+    manifold::exclusive_scan(Par, v.begin(), v.end(), a.begin(), 0, LastNonZero(), 0);
+    std::exclusive_scan(v.begin(), v.end(), b.begin(), 0, LastNonZero());
     return first_diff(a, b);
   }
   if (c == "exclusive_scan_inplace") {
